@@ -177,6 +177,41 @@ CLAIMED = {
             "predict_target_distribution, std finite and non-negative where required, sample_y shape and "
             "reproducibility, documented fallbacks.",
             "DESIGN.md 5 (C15)", TRUST + "; the posterior numerics are not modelled (DESIGN 9)"),
+    "C16": ("TLA+ module Labels (missing-label predicates, index enumeration, ExtLabelEncoder fit/transform/inverse, "
+            "accept/reject table of check_missing_label) model-checked by TLC; TLC-enumerated arrays concretised over the "
+            "dtype x sentinel x renaming grid and validated by LabelsTrace",
+            "TLC checks Complement, IndexOrder, Sorted, Encoding, RoundTrip on all 1-D arrays up to length 4 (6 thorough) "
+            "incl. empty and 2-D arrays up to 2x3 over K<=3 classes with and without explicit classes; each TLC case is "
+            "concretised under float/int/str/object dtypes, seven sentinels (NaN, None, -1, reserved numbers, '', "
+            "reserved strings) and three order-preserving renamings, as ndarray or nested list, executed on is_labeled, "
+            "is_unlabeled, labeled_indices, unlabeled_indices, ExtLabelEncoder.fit/transform/inverse_transform/"
+            "fit_transform and check_missing_label, and every projected result (or TypeError) must be the step the "
+            "specification allows.",
+            "DESIGN.md 5 (C16)", TRUST),
+    "C17": ("TLA+ module Aggregation (vote vectors, majority vote with any maximal class, per-annotator confusion "
+            "counts and normalisations as exact rationals) model-checked by TLC; TLC-generated cases replayed under "
+            "several encodings and validated by AggregationTrace",
+            "TLC checks the counting identities of vote vectors, the majority-vote conditions and the confusion "
+            "count / normalisation identities on small label matrices with integer weights; TLC-enumerated cases plus "
+            "random larger matrices are executed on compute_vote_vectors, majority_vote (several seeds) and "
+            "ext_confusion_matrix (all four normalisation modes) under float/NaN, int/-1, str and object encodings, "
+            "observed values are logged as exact rationals and TLC recomputes and compares them (membership in the "
+            "set of maximal classes for majority votes).",
+            "DESIGN.md 5 (C17)", TRUST),
+    "C19": ("TLA+ module IndexWrapper (bookkeeping state machine of IndexClassifierWrapper: cur/base triples, "
+            "segments for native partial_fit, refusals, kernel coverage; invariants LatestWins, NothingDropped, "
+            "BaseIsCopy, BaseStable, RefusalPure) model-checked by TLC; TLC behaviours (exhaustive depth 2-3 and "
+            "-simulate walks) replayed into the real wrapper and validated by IndexWrapperTrace",
+            "TLC explores call sequences to depth 4-5 over fit / partial_fit (from current or base model, with and "
+            "without enforcing unique samples) / precompute / predict with label overrides and weights; each TLC "
+            "behaviour is replayed into IndexClassifierWrapper around ParzenWindowClassifier variants, "
+            "SklearnClassifier(GaussianNB) (native partial_fit) and SklearnClassifier(LogisticRegression) for all flag "
+            "and prefit combinations, and after every call TLC checks that the projected idx/label/weight state "
+            "equals the specification's, that calls raise exactly where the specification refuses them, that "
+            "predict / predict_proba / predict_freq equal a fresh reference classifier trained on the implied "
+            "training multiset (fixed point, +-2 units), and that the precomputed-kernel speed-up equals the run "
+            "without it.",
+            "DESIGN.md 5 (C19)", TRUST),
 }
 
 NOT_YET = {}
